@@ -11,6 +11,7 @@ out=seeded/MATRIX.txt; [ $n -gt 1 ] && out=seeded/MATRIX.part$i.txt
 k=0
 for d in seeded/*/; do
   k=$((k+1)); [ $(( (k-1) % n )) -eq $i ] || continue
+  [ -f $d/patch.diff ] || continue
   id=$(basename $d); prop=${id:0:3}
   p=$d/patch.diff; [ -f $d/patch_rebased.diff ] && p=$d/patch_rebased.diff
   r=$(tools/seed_run.sh $V/$p $prop 2>&1)
